@@ -70,12 +70,45 @@ def nonincreasing : List Rat → Bool
   | [_] => true
   | a :: b :: r => decide (b ≤ a) && nonincreasing (b :: r)
 
+/-- a probability vector with null entries allowed (zero-allowing constraint): non-negative, sum one -/
+def nullProbs (p : List Rat) : Bool :=
+  p.all (fun x => decide (0 ≤ x)) && decide (rabs (rsum p - 1) ≤ tolFire p.length) && !p.isEmpty
+
 /-- strictly decreasing, positive, sum one: hypotheses of `ordered_roundtrip` -/
 def validOrdered (v : List Rat) : Bool :=
   validProbs (Simplex.orderedToProbs v 1)
 
+/-- conditioning of the local-ratio coding on the vector `i`: storing `θ_j = p_j/(p_j+p_{j+1})` (rounded
+to 2⁻⁵³ relative) loses the ratio `p_{j+1}/p_j = (1-θ_j)/θ_j` to a relative `2⁻⁵³·(1 + p_j/p_{j+1})`, and
+every later entry inherits it: relative error of every entry ≤ n·2⁻⁵⁰·(1 + max_j p_j/p_{j+1}) -/
+def kappa : List Rat → Rat
+  | a :: b :: r => let k := if b > 0 then a / b else 0
+                   let m := kappa (b :: r)
+                   if k > m then k else m
+  | _ => 0
+def closeRel (rel : Rat) (a ref : List Rat) : Bool :=
+  a.length == ref.length && (List.zip a ref).all (fun (x, y) => decide (rabs (x - y) ≤ rel * rabs y))
+def condTol (n : Nat) (i : List Rat) : Rat := tolFire n * (1 + kappa i)
+
+/-- exact running products / sum of the ratios `(1-θ)/θ`: does the accumulation of Simplex.cpp:156-164
+leave the binary64 range? -/
+def ratioOverflow (θ : List Rat) : Bool :=
+  let big : Rat := (2 ^ 1023 : Nat)
+  let (_, _, ov) := θ.foldl (fun (acc : Rat × Rat × Bool) t =>
+    let (th, x, ov) := acc
+    if t ≤ 0 then (th, x, ov) else
+    let th' := th * ((1 - t) / t)
+    let x' := x + th'
+    (th', x', ov || decide (th' ≥ big) || decide (x' ≥ big) || decide ((1 - t) / t ≥ big))) (1, 1, false)
+  ov
+
 /-- Predicates on a Simplex state answered by the implementation.
-`input` = vector the caller gave and from which the current parameters were derived (if any). -/
+`input` = vector the caller gave and from which the current parameters were derived (if any).
+Round trip and "probabilities = image of the parameters" are judged with the TIGHT absolute
+tolerance n·2⁻⁵⁰ for every coding.  For the local-ratio coding a vector that misses it but stays
+inside the conditioning bound `condTol` (relative, per entry) is reported as `roundtrip_accuracy`
+(known finding C19-local-ratio-accuracy); outside that bound it is `roundtrip` / `probs_match_params`.
+Zero-allowing constraint with parameters ON the boundary (0 or 1): clauses `null_*`. -/
 def judgeS (method dim : Nat) (allowNull : Bool) (input : Option (List Rat))
     (p θ : List String) : String :=
   if method = 0 ∨ method > 3 ∨ dim = 0 then "-" else
@@ -83,28 +116,46 @@ def judgeS (method dim : Nat) (allowNull : Bool) (input : Option (List Rat))
   | some p, some θ =>
     if p.length ≠ dim ∨ θ.length ≠ dim - 1 then "FAIL:shape"
     else if !(θ.all (Simplex.inConstraint allowNull)) then "FAIL:params_in_constraints"
-    else if !(θ.all (fun t => decide (0 < t ∧ t < 1))) then "-"   -- outside the open cube: nothing claimed
+    else if !(θ.all (fun t => decide (0 < t ∧ t < 1))) then
+      -- allowNull, a parameter equal to 0 or 1: a probability vector with null entries
+      if !(p.all (fun x => decide (0 ≤ x))) || !(decide (rabs (rsum p - 1) ≤ tolFire dim)) then "FAIL:null_probs"
+      else
+        let mapOk := if method = 2 then true else
+          match Simplex.probsOf (α := Rat) method dim θ with
+          | some q => close (tolFire dim) p q
+          | none => true
+        if !mapOk then "FAIL:null_probs"
+        else match input with
+          | some i => if close (tolFire dim) p i then "ok" else "FAIL:null_roundtrip"
+          | none => "ok"
     else if !(p.all (fun x => decide (0 ≤ x))) then "FAIL:probs_nonneg"
     else if !(decide (rabs (rsum p - 1) ≤ tolFire dim)) then "FAIL:probs_sum_one"
     else
-      let tol := match input with | some i => tolRound method dim i | none => tolFire dim
+      let tol := tolFire dim
       let fired := input.isNone
       match Simplex.probsOf (α := Rat) method dim θ with
       | some q =>
-        if !(close tol p q) then "FAIL:probs_match_params"
+        let accuracy := method = 2 && (match input with | some i => closeRel (condTol dim i) q p | none => false)
+        if !(close tol p q) && !accuracy then "FAIL:probs_match_params"
         -- exact tie, insensitive to the order of the floating-point operations: for the product
         -- codings (1, 3), parameters k/16 and dimension ≤ 9 every intermediate result is a dyadic
         -- number of at most 32 bits, so double arithmetic is exact
         else if fired && method ≠ 2 && dim ≤ 9 && θ.all (fun t => (t * 16).den == 1) && p != q then "FAIL:exact_on_dyadic"
         else match input with
-          | some i => if close tol p i then "ok" else "FAIL:roundtrip"
+          | some i =>
+            if close tol p i && close tol p q then "ok"
+            else if method = 2 && closeRel (condTol dim i) p i then "FAIL:roundtrip_accuracy"
+            else "FAIL:roundtrip"
           | none => "ok"
       | none => "-"
   | _, _ =>
-    -- NaN / infinity: allowed only when a parameter sits on the closed boundary
+    -- NaN / infinity
     match floats? θ with
-    | some θf => if allowNull && θf.any (fun t => t == 0 || t == 1) then "-" else "FAIL:finite"
-    | none => "FAIL:parse"
+    | some θf =>
+      if allowNull && θf.any (fun t => t == 0 || t == 1) then "FAIL:null_finite"
+      else if method = 2 && (match rats? θ with | some θr => ratioOverflow θr | none => false) then "FAIL:local_ratio_overflow"
+      else "FAIL:finite"
+    | none => if allowNull then "FAIL:null_finite" else "FAIL:parse"
 
 def judgeO (method dim : Nat) (allowNull : Bool) (input : Option (List Rat))
     (v p θ : List String) : String :=
@@ -113,7 +164,7 @@ def judgeO (method dim : Nat) (allowNull : Bool) (input : Option (List Rat))
   | "ok" =>
     match rats? v, rats? p with
     | some v, some p =>
-      let tol := match inP with | some i => tolRound method dim i | none => tolFire dim
+      let tol := tolFire dim
       if v.length ≠ dim then "FAIL:shape"
       else if !(nonincreasing v) || !(v.all (fun x => decide (0 ≤ x))) then "FAIL:ordered_nonincreasing"
       else if !(decide (rabs (rsum v - 1) ≤ tolFire dim)) then "FAIL:ordered_sum_one"
@@ -216,6 +267,7 @@ def errShow : SimplexObj.HErr → String
 implementation's answer -/
 def finish (s : St) (r : Nat) (res : Heap × Option SimplexObj.HErr) (kind : Kind)
     (impl : Option (List String)) (validIn : Bool) (exp : Option Expect) (healed : Bool := false)
+    (nullIn : Bool := false)
     (makeStale : Bool := false) : St × String × String :=
   let ordered := r ≥ 4
   let h := res.1
@@ -243,7 +295,7 @@ def finish (s : St) (r : Nat) (res : Heap × Option SimplexObj.HErr) (kind : Kin
     let ans := " ".intercalate t
     if ans.startsWith "exc:" || ans == "ub" then
       -- (`ub`: the harness did not execute a call that would read out of bounds)
-      (s1, out, if validIn then "FAIL:accepts_valid" else "-")
+      (s1, out, if validIn then "FAIL:accepts_valid" else if nullIn then "FAIL:null_accepts" else "-")
     else
     let s2 := { s1 with last := s1.last.set! r (some t) }
     if ans.startsWith "inconsistent-accessors" then (s2, out, "FAIL:accessors_agree")
@@ -268,7 +320,9 @@ def finish (s : St) (r : Nat) (res : Heap × Option SimplexObj.HErr) (kind : Kin
       let (s3, v2) := match kind, v2 with
         | .userParams, "ok" =>
           let o : Obs := ⟨a.θ, a.p, m.method, m.dim⟩
-          if ordered then (s2, "ok")
+          -- injectivity is claimed on the open cube only
+          let open_ := match rats? a.θ with | some θ => θ.all (fun t => decide (0 < t ∧ t < 1)) | none => false
+          if ordered || !open_ then (s2, "ok")
           else if injOk s2.seen o then ({ s2 with seen := o :: s2.seen }, "ok") else (s2, "FAIL:injective")
         | _, v => (s2, v)
       (s3, out, v2)
@@ -334,9 +388,11 @@ def step (s : St) (op : List String) (impl : Option (List String)) : St × Strin
       let ri := ratsOfF p
       let valid := (1 ≤ m && m ≤ 3) && (match ri with
         | some r => if ordered then validOrdered r else validProbs r | none => false)
-      let kind : Kind := match ri with | some r => if valid then .fresh r else .fired | none => .fired
+      let vnull := a && (1 ≤ m && m ≤ 3) && !valid && (match ri with
+        | some r => nullProbs (if ordered then Simplex.orderedToProbs r 1 else r) | none => false)
+      let kind : Kind := match ri with | some r => if valid || vnull then .fresh r else .fired | none => .fired
       finish s (reg ordered k) (SimplexObj.applyH s.heap (.newVec (reg ordered k) ordered m a p)) kind impl valid
-        (some { clause := "ctor_members", mem := ctorMeta p.length m a }) (healed := true)
+        (some { clause := "ctor_members", mem := ctorMeta p.length m a }) (healed := true) (nullIn := vnull)
     | _, _, _, _ => (s, "bad-op", "-")
   | "newdim", [k, n, m, a] =>
     match nat? k, nat? n, nat? m, bool? a with
@@ -356,14 +412,16 @@ def step (s : St) (op : List String) (impl : Option (List String)) : St × Strin
         let ri := ratsOfF p
         let valid := (1 ≤ st.method && st.method ≤ 3) && p.length == st.dim && (match ri with
           | some q => if ordered then validOrdered q else validProbs q | none => false)
+        let vnull := allowNullOf st && (1 ≤ st.method && st.method ≤ 3) && p.length == st.dim && !valid && (match ri with
+          | some q => nullProbs (if ordered then Simplex.orderedToProbs q 1 else q) | none => false)
         let res := SimplexObj.applyH s.heap (.setFreq r p)
         let kind : Kind := match res.2, ri, res.1.view r with
           | none, some ri, .ok (_, n) =>
-            if !valid then .fired
+            if !valid && !vnull then .fired
             else if ordered then .fresh ri
             else if paramsChanged st n || st.dim ≤ 1 then .fresh ri else .keep
           | _, _, _ => .fired
-        finish s r res kind impl valid (keepMeta s r) (healed := true)
+        finish s r res kind impl valid (keepMeta s r) (healed := true) (nullIn := vnull)
     | _, _ => (s, "bad-op", "-")
   | "setpar", k :: hs =>
     match nat? k, floats? hs with
@@ -409,7 +467,8 @@ def step (s : St) (op : List String) (impl : Option (List String)) : St × Strin
       let r := reg ordered k
       match s.heap.view r with
       | .error _ => (s, "none", "-")
-      | .ok _ => finish s r (SimplexObj.applyH s.heap (.fire r)) .fired impl false (keepMeta s r)
+      -- (the parameters are what they were: a vector they came from is still the reference)
+      | .ok _ => finish s r (SimplexObj.applyH s.heap (.fire r)) .keep impl false (keepMeta s r)
     | _ => (s, "bad-op", "-")
   | "get", [k] =>
     match nat? k with
